@@ -48,7 +48,7 @@ Section Roundtrip.
     /\ headers_ok (rq_headers rq) /\ headers_ok (rs_headers r)
     (* complement of connect-url-changed, url-rejected-import-fails, url-normalised-by-importer, host-header-rewritten *)
     /\ bytes_eqb (method_of rq) connect_method = false
-    /\ (exists hp, l_url_set L (rq_pretty_url rq) = Ok (hp, rq_pretty_url rq)
+    /\ (exists hp, l_url_set L (pretty_url L rq) = Ok (hp, pretty_url L rq)
                    /\ (contains (rq_headers rq) K_HOST = false \/ setitem (rq_headers rq) K_HOST hp = rq_headers rq))
     (* complement of request-content-encoding-dropped, missing-request-body-import-fails, request-body-*,
        request-content-type-rewritten *)
@@ -63,7 +63,7 @@ Section Roundtrip.
 
   (* the conclusion: the fields the property lists *)
   Definition same_exchange (rq : request) (r : response) (i : iflow) : Prop :=
-    i_method i = method_of rq /\ i_url i = rq_pretty_url rq /\ i_version i = rq_version rq
+    i_method i = method_of rq /\ i_url i = pretty_url L rq /\ i_version i = rq_version rq
     /\ others K_CL (i_rh i) = others K_CL (rq_headers rq)
     /\ (postlike rq = true -> i_rraw i = rq_raw rq)
     /\ i_status i = rs_status r /\ i_sversion i = rs_version r /\ i_sh i = rs_headers r
@@ -159,11 +159,11 @@ Section Roundtrip.
         rewrite Hraw, (get_text_noce _ c Hce1), Hi, Hd. reflexivity.
       - destruct Hreq as (b0 & He). exists None, [], b0. split; [split; reflexivity|exact He]. }
     destruct Hpost as (post & text & c & Hpost & Henc).
-    destruct (request_import (rq_headers rq) (rq_pretty_url rq) hp text c Hce1 Hu Hhost Henc) as (hF & Hmake & Hdec & Hoth).
+    destruct (request_import (rq_headers rq) (pretty_url L rq) hp text c Hce1 Hu Hhost Henc) as (hF & Hmake & Hdec & Hoth).
     (* --- response side of the export *)
     assert (Hresp : exists ctext enc sraw,
                (flow_entry L rq (Some r) =
-                Ok (mkEntry (method_of rq) (rq_pretty_url rq) (rq_version rq) (rq_headers rq) post
+                Ok (mkEntry (method_of rq) (pretty_url L rq) (rq_version rq) (rq_headers rq) post
                             (rs_status r) (rs_version r) (rs_headers r) (Some ctext) enc))
                /\ (if option_eqb bytes_eqb enc (Some import_b64_tag) then l_b64dec L ctext
                    else match enc with
